@@ -26,7 +26,8 @@ def run(ctx):
     # near misses: markers that differ in exactly one place (the value of an `in` / `contains` / extra / == node, one child, one bound):
     # the pairs a comparison that skips a field cannot tell apart
     fam = []
-    for a_, b_ in [("os.name == 'posix'", "os_name == 'posix'"), ("sys.platform == 'linux'", "sys_platform == 'linux'"), ("platform.machine < 'x86_64'", "platform_machine < 'x86_64'"),
+    for a_, b_ in [("extra == 'a b'", "extra == 'c d'"), ("extra != 'a b'", "extra != 'c d'"), ("extra == 'a b' and os_name == 'posix'", "extra == 'c d' and os_name == 'posix'"),
+                   ("os.name == 'posix'", "os_name == 'posix'"), ("sys.platform == 'linux'", "sys_platform == 'linux'"), ("platform.machine < 'x86_64'", "platform_machine < 'x86_64'"),
                    ("'Ubuntu' in platform.version", "'Ubuntu' in platform_version"), ("platform.version in 'Ubuntu Debian'", "platform_version in 'Ubuntu Debian'"),
                    ("python_implementation == 'CPython'", "platform_python_implementation == 'CPython'"), ("platform.python_implementation != 'PyPy'", "python_implementation != 'PyPy'"),
                    ("python_version >= '3.8' and os.name == 'posix'", "python_version >= '3.8' and os_name == 'posix'"),
